@@ -13,6 +13,7 @@ import ast
 from typing import Dict, List, Optional, Set, Tuple
 
 from .index import ClassInfo, FuncInfo, Index, dotted, function_stmts
+from .index import walk_no_nested
 from .roles import backend_registry, callable_list_loops
 
 # method names that data objects (pandas / polars / numpy) define as well: never resolved by name alone
@@ -298,7 +299,7 @@ class Resolver:
             same = [m for m in out if _flavour(m.module.path) in (None, fl)]
             if same:
                 out = same
-        fam = self.receiver_family(v)
+        fam = self.receiver_family(v) or self.family_by_definition(f, v)
         if fam:
             narrowed = [m for m in out if m.cls is not None and any(m.cls.is_subclass_of(b) for b in fam)]
             if narrowed:
@@ -314,6 +315,78 @@ class Resolver:
         (("schema", "schema_component", "component", "index", "_index", "column", "col", "series_schema",
           "schema_copy"), ("BaseSchema",)),
     )
+
+    # -- family of a receiver from what it is bound to (independent of how the local is called) ----------------
+    ELEMENT_FAMILY = {"columns": ("BaseSchema",), "indexes": ("BaseSchema",), "checks": ("BaseCheck",), "parsers": ("BaseParser", "Parser")}
+
+    def _bindings(self, f):
+        """name -> list of ("value", expr) | ("element", iterable expr, position) bindings of plain locals of f (and of the
+        functions enclosing it, for closures)."""
+        cache = self.__dict__.setdefault("_bind_cache", {})
+        if f.qual in cache:
+            return cache[f.qual]
+        out = {}
+        scopes = [f]
+        p = getattr(f, "parent", None)
+        while p is not None:
+            scopes.append(p)
+            p = getattr(p, "parent", None)
+        for g in scopes:
+            for n in walk_no_nested(g.node):
+                if isinstance(n, ast.Assign) and len(n.targets) == 1 and isinstance(n.targets[0], ast.Name):
+                    out.setdefault(n.targets[0].id, []).append(("value", n.value, None))
+                elif isinstance(n, (ast.For, ast.AsyncFor, ast.comprehension)):
+                    t = n.target
+                    if isinstance(t, ast.Name):
+                        out.setdefault(t.id, []).append(("element", n.iter, None))
+                    elif isinstance(t, ast.Tuple):
+                        for i, e in enumerate(t.elts):
+                            if isinstance(e, ast.Name):
+                                out.setdefault(e.id, []).append(("element", n.iter, i))
+        cache[f.qual] = out
+        return out
+
+    def family_by_definition(self, f, recv, depth=0):
+        if depth > 4:
+            return None
+        if isinstance(recv, ast.Name):
+            fams = set()
+            for kind, e, pos in self._bindings(f).get(recv.id, []):
+                fam = None
+                if kind == "value":
+                    fam = self.receiver_family(e) or self.family_by_definition(f, e, depth + 1)
+                else:
+                    it = e
+                    # enumerate(X) -> element is position 1; X.items() -> value is position 1; X.values() / X -> the element
+                    if isinstance(it, ast.Call) and isinstance(it.func, ast.Name) and it.func.id == "enumerate" and it.args:
+                        if pos != 1:
+                            continue
+                        it = it.args[0]
+                    if isinstance(it, ast.Call) and isinstance(it.func, ast.Attribute) and it.func.attr in ("items", "values"):
+                        if it.func.attr == "items" and pos != 1:
+                            continue
+                        it = it.func.value
+                    last = it.attr if isinstance(it, ast.Attribute) else (it.id if isinstance(it, ast.Name) else None)
+                    if last is not None and last.lstrip("_") in self.ELEMENT_FAMILY:
+                        fam = self.ELEMENT_FAMILY[last.lstrip("_")]
+                    elif isinstance(it, ast.Name):
+                        # a local list of components / checks: look at what it is bound to
+                        for k2, e2, _ in self._bindings(f).get(it.id, []):
+                            if k2 == "value":
+                                l2 = e2.attr if isinstance(e2, ast.Attribute) else None
+                                if l2 and l2.lstrip("_") in self.ELEMENT_FAMILY:
+                                    fam = self.ELEMENT_FAMILY[l2.lstrip("_")]
+                if fam:
+                    fams.add(tuple(fam))
+            if len(fams) == 1:
+                return fams.pop()
+            return None
+        if isinstance(recv, ast.Attribute):
+            if recv.attr in ("dtype",):
+                return ("DataType",)
+            if recv.attr in ("index",):
+                return ("BaseSchema",)
+        return None
 
     def receiver_family(self, recv: ast.expr):
         last = None
